@@ -657,6 +657,10 @@ class Nodes:
             typed_value = value
         except SyntaxError:
             typed_value = value
+        except (TypeError, MemoryError, RecursionError):
+            # Text merely resembling a Python literal which cannot be built,
+            # like {[1]: 2}, or which is too deeply nested to evaluate
+            typed_value = value
         return typed_value
 
     @staticmethod
